@@ -43,12 +43,18 @@ MANIFEST = {
             'conditions, numeric evaluation equals exact substitution wherever no argument is a discontinuity; the causal '
             'short-circuit zeroes exactly the negative arguments of causal expressions; a result conditioned on t >= c '
             'raises below c; list evaluation is the element-wise map of scalar evaluation; the trapezoidal / backward-Euler '
-            'companion models are exact on affine / constant drives with explicit O(h^3) / O(h^2) one-step defects.  The '
+            'companion models are exact on affine / constant drives with explicit O(h^3) / O(h^2) one-step defects; the entry '
+            'list of SimulatedComponent.stamp is the conductance stamp, so the system assembled at step k adds exactly '
+            'geq(dt_k) (x(i1) - x(i3)) to the two rows of each reactive component (sim_stamped_row, any circuit).  The '
             'models are tied to the code by in-Coq evaluation (vm_compute over Qc) against the real evaluate() and exact '
-            'sympy substitution at dyadic rational points.',
+            'sympy substitution at dyadic rational points (exact verdicts) and at arbitrary float points / large values (verdict '
+            '|model - exact value of the float| <= 1e-9 (1 + |model|) computed in Qc); every step of real Simulator runs of '
+            'multi-component circuits on uniform and non-uniform time vectors is re-checked in Coq against the stamped system '
+            '(A + stamps(geq(dt_k))) x_k = Z(t_k) + veq(dt_k, x_(k-1)) built from the translated formulas.',
     'note': 'PARTIAL: NumPy floating point, the lambdify printer, the limit()/simplify() fall-backs of evaluate, Bessel functions, '
-            'the overflow clamp of exp and convergence of Simulator/response as h -> 0 for arbitrary circuits are outside the '
-            'model; they are exercised only by the float search oracle (tolerance 1e-9, reported only above 1e-6).  Trusted: Coq '
+            'the overflow clamp of exp, numpy.linalg.inv (its result is re-checked per step, not modelled) and convergence of '
+            'Simulator/response as h -> 0 for arbitrary circuits are outside the model; they are exercised only by the float '
+            'search oracle (tolerance 1e-9, reported only above 1e-6).  Trusted: Coq '
             'kernel/vm_compute; tools/tr_numfuncs.py, tools/tr_numsim.py; statement templates in checks/c17.py; hand-written '
             'specification of SymPy Heaviside/sign/DiracDelta/sinc in coq/theory/NumEval.v (validated by the exact-substitution '
             'side of the correspondence); float -> rational canonicalisation limit_denominator(10^6) for dyadic inputs.',
@@ -617,6 +623,8 @@ Definition outeq (a b : outv) : bool :=
   | OScalar x, OScalar y => qc_eqb x y | OVector xs, OVector ys => lqeq xs ys | ORaise, ORaise => true | _, _ => false end.
 (* tolerance verdict on the exact value of a float: |model - float| <= 1e-9 (1 + |model|), in exact arithmetic *)
 Definition close (m o : Qc) : bool := Qle_bool (Qabs.Qabs (m - o)%Qc) ((1 # 1000000000) * (1 + Qabs.Qabs m))%Q.
+Definition oclose (a b : option Qc) : bool :=
+  match a, b with Some x, Some y => close x y | None, None => true | _, _ => false end.
 Fixpoint lqclose (a b : list Qc) : bool :=
   match a, b with [] , [] => true | x :: r, y :: s => close x y && lqclose r s | _, _ => false end.
 Definition outclose (a b : outv) : bool :=
@@ -768,6 +776,55 @@ def sim_cases(rng, tier):
             cs.append({'kind': 'sim', 'net': ['V1 1 0 step 2', 'R1 1 2 %s' % float(F(Rv)), 'L1 2 0 %s' % float(F(Lv))], 'T': '4', 'N': N, 'grid': grid,
                        'integrator': integ, 'probe': ['L1.v', 'L1.i'], 'rec': ['L', Rv, Lv, '2'], 'id': 'rec:RL:%s:%s' % (integ, grid), 'timeout': 300})
     return cs
+
+
+SIMRES_NETS = {
+    'CparL': ['V1 1 0 step 2', 'R1 1 2 1', 'C1 2 0 0.5', 'L1 2 0 0.25'],
+    'ladder2C': ['V1 1 0 step 1', 'R1 1 2 1', 'C1 2 0 0.5', 'R2 2 3 2', 'C2 3 0 0.25'],
+    'seriesRLC': ['V1 1 0 step 1', 'R1 1 2 1', 'L1 2 3 0.5', 'C1 3 0 0.25'],
+    'floatC': ['V1 1 0 step 2', 'R1 1 2 1', 'C1 2 3 0.5', 'R2 3 0 2', 'L1 2 0 1'],
+    'ramp2L': ['V1 1 0 {2*t*u(t)}', 'L1 1 2 0.5', 'R1 2 0 1', 'L2 2 3 0.25', 'R2 3 0 3'],
+}
+
+
+def simres_cases(rng, tier):
+    """arbitrary circuits: every step of the real run is re-checked against the stamped system of the model"""
+    cs = []
+    names = sorted(SIMRES_NETS)
+    if tier == 'quick':
+        names = rng.sample(names, 3)
+    for nm in names:
+        for integ in ('trapezoid', 'backward-euler'):
+            for grid, N in (('uniform', 9), ('quadratic', 13), ('two-rate', 9)):
+                cs.append({'kind': 'simres', 'net': SIMRES_NETS[nm], 'T': '4', 'N': N, 'grid': grid, 'integrator': integ,
+                           'id': '%s:%s:%s' % (nm, integ, grid), 'timeout': 120})
+    return cs
+
+
+SIMRES_HDR = '''From Coq Require Import Qabs.
+Definition vget (l : list Qc) (i : Z) : Qc := if Z.ltb i 0 then 0%Qc else nth (Z.to_nat i) l 0%Qc.
+Definition mget (rows : list (list Qc)) (r q : Z) : Qc := vget (nth (Z.to_nat r) rows []) q.
+Record cdesc := MkC { cg : Qc -> Qc; cv : Qc -> Qc -> Qc -> Qc -> Qc; c1 : Z; c2 : Z; c3 : Z; cb : Z }.
+(* the components of step k: conductance and history source from the TRANSLATED formulas with the step size of this step
+   and the state of the previous step *)
+Definition comps (nn : Z) (cs : list cdesc) (dt : Qc) (xp : list Qc) : list (rcomp QcF) :=
+  map (fun c => MkRcomp (K:=QcF) (cg c dt) (cv c dt (vget xp (c1 c)) (vget xp (c2 c)) (vget xp (nn + cb c)%Z))
+                        (c1 c) (c3 c) (nn + cb c)%Z) cs.
+Definition qabs (a : Qc) : Qc := Q2Qc (Qabs a).
+Definition row_ok (idx : list Z) (M : Z -> Z -> Qc) (Zr : Z -> Qc) (x : Z -> Qc) (r : Z) : bool :=
+  let lhs := rowdot (K:=QcF) idx M x r in
+  let sc := lsum (K:=QcF) idx (fun q => qabs (M r q * x q)%Qc) in
+  Qle_bool (Qabs (lhs - Zr r)%Qc) ((1 # 10000000) * (1 + sc + Qabs (Zr r)))%Q.
+Fixpoint run_ok (idx : list Z) (rows : list (list Qc)) (nn : Z) (cs : list cdesc)
+                (steps : list (Qc * list Qc * list Qc)) (xp : list Qc) : bool :=
+  match steps with
+  | [] => true
+  | (dt, zl, xl) :: t =>
+      let cps := comps nn cs dt xp in
+      forallb (row_ok idx (stamped (K:=QcF) (mget rows) stamp_A cps) (zstamped (K:=QcF) (vget zl) cps) (vget xl)) idx
+      && run_ok idx rows nn cs t xl
+  end.
+'''
 
 
 def sim_ref(ref, tv):
@@ -988,18 +1045,19 @@ def run(tier='quick', replay=None):
         scases = sim_cases(rng, tier)
         rcases = response_cases(rng, tier)
         stcases = simstep_cases(rng, 4 if tier == 'quick' else 20)
+        srcases = simres_cases(rng, tier)
         misc = [{'kind': 'lambdify'}, {'kind': 'rmodel', 'cpt': 'C'}, {'kind': 'rmodel', 'cpt': 'L'}]
         if replay:
             rc = replay.get('case')
-            exact, tcases, scases, rcases, stcases, misc = [], [], [], [], [], []
+            exact, tcases, scases, rcases, stcases, misc, srcases = [], [], [], [], [], [], []
             if rc:
-                {'expr': exact, 'text': tcases, 'sim': scases, 'response': rcases}.get(rc['kind'], misc).append(rc)
+                {'expr': exact, 'text': tcases, 'sim': scases, 'response': rcases, 'simres': srcases}.get(rc['kind'], misc).append(rc)
                 if rc['kind'] in ('sim', 'response'):
                     d = dict(rc)
                     d['N'] = 4 * (int(rc['N']) - 1) + 1
                     {'sim': scases, 'response': rcases}[rc['kind']].append(d)
                 exact = expand_modes(exact)
-        allc = scases + rcases + exact + tcases + stcases + misc
+        allc = scases + rcases + exact + tcases + stcases + srcases + misc
         allr = core.run_impl('impl_numeval.py', allc, timeout=1500 if tier == 'quick' else 4000)
         ncrash = sum(1 for r in allr if 'worker crashed' in str(r.get('error', '')))
         if ncrash:
@@ -1016,8 +1074,9 @@ def run(tier='quick', replay=None):
         eres = allr[o:o + len(exact)]; o += len(exact)
         tres = allr[o:o + len(tcases)]; o += len(tcases)
         stres = allr[o:o + len(stcases)]; o += len(stcases)
+        srres = allr[o:o + len(srcases)]; o += len(srcases)
         mres = allr[o:]
-        res.programs = len(exact) + len(tcases) + len(scases) + len(rcases) + len(stcases)
+        res.programs = len(exact) + len(tcases) + len(scases) + len(rcases) + len(stcases) + len(srcases)
         if replay:
             print(json.dumps({'replayed': allc, 'lcapy': allr}, indent=1)[:6000])
 
@@ -1085,6 +1144,9 @@ def run(tier='quick', replay=None):
                 on_pw = any(a[0] == 'pw' for a in apps)
                 so = observed(rj, 'sym')
                 no = observed(rj, 'num') if not (vec and 'vec_err' in r) else ('none',)
+                if 'sym_raw' in rj and (big or so[0] == 'skip'):
+                    # sympy produced a Float (trap's eval uses 0.5 literals): tolerance verdict as well
+                    so = ('approx', F(float(rj['sym_raw'])))
                 fl_ = rj.get('num_float', rj.get('num_inexact'))
                 if (big or no[0] == 'skip') and fl_ is not None and not (vec and 'vec_err' in r):
                     fv_ = float(fl_)
@@ -1101,7 +1163,7 @@ def run(tier='quick', replay=None):
                 # correspondence items
                 if so[0] != 'skip' and em is not None:
                     obs = 'None' if so[0] == 'none' else '(Some %s)' % qcl(so[1])
-                    items.append((nid, 'sym', 'oqeq (eval sym_tab e_%d %s) %s' % (ci, qcl(x), obs)))
+                    items.append((nid, 'sym', '%s (eval sym_tab e_%d %s) %s' % ('oclose' if so[0] == 'approx' else 'oqeq', ci, qcl(x), obs)))
                     meta[nid] = (ci, j, 'sym')
                     nid += 1
                 if on_pw or zero_clause or disc:
@@ -1127,15 +1189,19 @@ def run(tier='quick', replay=None):
                     res.count('points_causal_negative')
                     if no[0] in ('val', 'approx') and no[1] != 0:
                         add_cex('causal_mask:nonzero-at-negative-time', 'causal expression does not evaluate to 0 at a negative time', c, c['points'][j], lcapy=rj)
-                    if not forced and so[0] == 'val' and so[1] != 0:
+                    if not forced and so[0] in ('val', 'approx') and abs(so[1]) > F(1, 10 ** 9):
                         add_cex(attribute(c, x, apps, 'causal_mask:inferred-causal-but-nonzero'),
                                 'is_causal is inferred True but exact substitution at a negative time is not 0 (the mask changes the value)', c, c['points'][j], lcapy=rj)
                     continue
                 if disc or so[0] == 'skip' or no[0] == 'skip':
                     continue
-                if no[0] == 'approx':
+                if no[0] == 'approx' or so[0] == 'approx':
                     # tolerance verdict on the exact value of the float
-                    if so[0] == 'val':
+                    if no[0] == 'none':
+                        if not vec:
+                            add_cex(attribute(c, x, apps, 'raises'), 'evaluate(%s) raises %s but exact substitution gives %s' % (
+                                c['points'][j], rj.get('num_err'), float(so[1])), c, c['points'][j], lcapy=rj)
+                    elif so[0] in ('val', 'approx'):
                         d_ = abs(so[1] - no[1])
                         sc_ = max(F(1), abs(so[1]))
                         if d_ > sc_ / 10 ** 6:
@@ -1376,6 +1442,46 @@ def run(tier='quick', replay=None):
                             float_evidence=True)
             for c, r in rec_runs:
                 res.add_case('simrec|' + c['id'], True, None)
+        # arbitrary circuits: every step of the real run must satisfy (A + stamps(geq(dt_k))) x_k = Z(t_k) + veq(dt_k, x_(k-1))
+        if ns is not None and srcases and os.path.exists(w.path('NumSimGen.vo')):
+            TAG = {k: v[0] for k, v in TS.CLASSES.items()}
+            lines, good = [], []
+            for c, r in zip(srcases, srres):
+                if 'timeout' in r:
+                    res.count('impl_timeout')
+                    continue
+                if 'error' in r:
+                    add_cex('sim:error:' + c['id'], 'Simulator failed: ' + r['error'], c)
+                    continue
+                qf = lambda v: qcl(F(float(v)))
+                n_ = int(r['nn']) + int(r['nb'])
+                rows = '[%s]' % '; '.join('[%s]' % '; '.join(qf(v) for v in row) for row in r['A'])
+                cds = []
+                for q in r['cpts']:
+                    t = TAG[q['cls']]
+                    cds.append('MkC (fun dt => geq_%s (K:=QcF) %s dt) (fun dt a b i => veq_%s (K:=QcF) %s dt a b i) (%d) (%d) (%d) (%d)' % (
+                        t, qf(q['X']), t, qf(q['X']), q['i1'], q['i2'], q['i3'], q['ib']))
+                tvq = [F(float(t)) for t in r['tv']]
+                steps = []
+                for k in range(1, len(tvq)):
+                    steps.append('(%s, [%s], [%s])' % (qcl(tvq[k] - tvq[k - 1]), '; '.join(qf(v) for v in r['Z'][k]), '; '.join(qf(v) for v in r['x'][k])))
+                lines.append('(%d%%nat, run_ok (map Z.of_nat (seq 0 %d)) %s (%d)%%Z [%s] [%s] [%s])' % (
+                    len(good), n_, rows, int(r['nn']), '; '.join(cds), '; '.join(steps), '; '.join(qf(v) for v in r['x'][0])))
+                good.append((c, r))
+                res.add_case('simres|' + c['id'], True, None)
+                res.count('sim_steps_rechecked', len(tvq) - 1)
+            w.write('simres.v', SIM_CASES_HDR + SIMRES_HDR + 'Definition cases : list (nat * bool) := [\n%s].\nEval vm_compute in (failing cases).\n' % ';\n'.join(lines))
+            ok, out, secs = core.coqc(w.dir, 'simres.v', timeout=600)
+            fl = core.parse_eval_list(out) if ok else None
+            if fl is None:
+                res.failed_obl.append(('correspondence_eval', 'simres.v', out[-600:]))
+                res.obligations += 1
+            else:
+                for i in fl:
+                    c, r = good[i]
+                    add_cex('sim:step-violates-stamped-system:' + c['id'], 'a step of Simulator(%s) on the %s time vector does not satisfy '
+                            '(A + stamps(geq(dt_k))) x_k = Z(t_k) + veq(dt_k, x_(k-1)) of the translated model (tolerance 1e-7)' % (c['integrator'], c['grid']),
+                            c, lcapy={'tv': r['tv'], 'x': r['x']}, float_evidence=True)
         conv = {}
         for cid, lst in errs(groups).items():
             if len(lst) < 2:
